@@ -62,6 +62,7 @@ func Run(o *drv.Out) {
 	consts(o)
 	// the permanent scenarios first: when they fail, theirs is the specific signature to report
 	t0 := time.Now()
+	dialAttribution(o, base)
 	interleavedTopicsFirstLarge(o, base)
 	concurrentSmallAndLarge(o, base)
 	o.Extra["c18_interleave_s"] = time.Since(t0).Seconds()
